@@ -19,7 +19,12 @@ class TealLabel(TealComponent):
         return self.label
 
     def assemble(self) -> str:
-        comment = "\n// {}\n".format(self.comment) if self.comment is not None else ""
+        comment = ""
+        if self.comment is not None:
+            # a comment may span several lines (e.g. a subroutine name containing a line break);
+            # every one of them must stay a comment
+            lines = self.comment.splitlines() or [""]
+            comment = "\n" + "".join("// {}\n".format(line) for line in lines)
         return "{}{}:".format(comment, self.label.getLabel())
 
     def __repr__(self) -> str:
